@@ -42,6 +42,10 @@ pub struct Case {
     /// exit status per invocation index; 256+s = signal
     pub script: Vec<u16>,
     pub missing_cmd: bool,
+    /// a second, independent "-exec rec B {} +" action after the first one (each action batches on
+    /// its own; a later successful invocation must not erase an earlier failure)
+    #[serde(default)]
+    pub second: bool,
 }
 
 fn stack_bytes(s: u8) -> u64 {
@@ -99,6 +103,7 @@ pub fn gen_case(g: &mut Gen, big: bool) -> Case {
         quit_after: if g.chance(1, 5) { Some(g.usize_in(0, total_target.max(1))) } else { None },
         script,
         missing_cmd: g.chance(1, 25),
+        second: g.chance(1, 4),
     }
 }
 
@@ -192,6 +197,11 @@ pub fn check(ctx: &mut Ctx, c: &Case) -> Outcome {
     args.extend(c.fixed.iter().cloned());
     args.push("{}".into());
     args.push("+".into());
+    if c.second {
+        args.push(if c.execdir { "-execdir".into() } else { "-exec".into() });
+        args.push(rec_bin().to_string_lossy().into_owned());
+        args.extend(["@second@".to_string(), "{}".to_string(), "+".to_string()]);
+    }
     args.extend(["-printf".to_string(), "T:%p\\0".to_string()]);
     if let Some(k) = c.quit_after {
         // quit once more than k entries were reached: a counter is not expressible, so quit on the (k+1)-th path by name
@@ -204,7 +214,11 @@ pub fn check(ctx: &mut Ctx, c: &Case) -> Outcome {
     let script: String = c.script.iter().map(|v| if *v >= 256 { format!("s{}", v - 256) } else { v.to_string() }).collect::<Vec<_>>().join(",");
     let a: Vec<OsString> = args.iter().map(OsString::from).collect();
     let o = ctx.run_bin(&find_bin(), &a, &BinOpts { env: vec![("VERIF_REC_LOG".into(), log.clone().into_os_string()), ("VERIF_REC_SCRIPT".into(), script.clone().into())], stack_limit: Some(stack_bytes(c.stack)), timeout_s: 600, clear_env: true, ..Default::default() });
-    let recs = read_rec_log(&log);
+    let all_recs = read_rec_log(&log);
+    // the second action's invocations carry the marker as their first argument
+    let is_second = |r: &crate::engine::proc::RecInvocation| r.args.first().map_or(false, |a| a == b"@second@");
+    let recs: Vec<crate::engine::proc::RecInvocation> = all_recs.iter().filter(|r| !is_second(r)).cloned().collect();
+    let recs2: Vec<crate::engine::proc::RecInvocation> = all_recs.iter().filter(|r| is_second(r)).cloned().collect();
     let kind = if c.execdir { "execdir" } else { "exec" };
     let short = |v: &[String]| -> String {
         if v.len() <= 8 {
@@ -298,8 +312,22 @@ pub fn check(ctx: &mut Ctx, c: &Case) -> Outcome {
             return fail(format!("C08:{what}:execdir{}", if quit_hit { ":quit" } else { "" }), desc());
         }
     }
-    // exit status
-    let failed = recs.iter().enumerate().any(|(i, _)| c.script.get(i).copied().unwrap_or(0) != 0);
+    // the second action delivers the same list (in its own batches)
+    if c.second {
+        if !c.execdir {
+            let d2: Vec<String> = recs2.iter().flat_map(|r| r.args.iter().skip(1).map(|a| lossy(a))).collect();
+            if d2 != reached {
+                return fail(format!("C08:second-action:paths-lost-or-reordered:{kind}"), desc());
+            }
+        } else {
+            let n2: usize = recs2.iter().map(|r| r.args.len() - 1).sum();
+            if n2 != reached.len() {
+                return fail(format!("C08:second-action:paths-lost-or-duplicated:{kind}"), desc());
+            }
+        }
+    }
+    // exit status (the script is indexed by the global invocation order over both actions)
+    let failed = all_recs.iter().enumerate().any(|(i, _)| c.script.get(i).copied().unwrap_or(0) != 0);
     if failed && o.code == Some(0) {
         return fail(format!("C08:exit-0-although-an-invocation-failed:{kind}"), desc());
     }
@@ -313,6 +341,7 @@ pub fn check(ctx: &mut Ctx, c: &Case) -> Outcome {
         .class_if(failed, "failing-invocation")
         .class_if(c.execdir, "execdir")
         .class_if(c.two_roots, "two-starting-points")
+        .class_if(c.second, "two-batching-actions")
         .class_if(reached.is_empty(), "nothing-reached")
         .class(match c.stack {
             0 => "stack-256KiB",
